@@ -420,12 +420,12 @@ func Walk(g *Graph, newImpl func() Impl, maxKeep int) *Report {
 					good = false
 				}
 			}
-			if ed.OK && ok && ed.To == n && eventType(ed.E) == "ExportImport" {
+			if ed.OK && ok && ed.To == n && strings.HasSuffix(eventType(ed.E), "ExportImport") {
 				// a genesis round trip that leaves the abstract state unchanged: every event enabled here is executed once more
 				// on the re-imported chain (one step; C16: the new chain answers every later message as the original would)
 				if good {
 					for _, ed2 := range g.Out[n] {
-						if eventType(ed2.E) == "ExportImport" {
+						if strings.HasSuffix(eventType(ed2.E), "ExportImport") {
 							continue
 						}
 						f2 := f.Fork()
